@@ -42,7 +42,27 @@ for (_x, _y) in PAIRS_STR:
     assert _x != _y and len(_x) == len(_y) == 16 and fx(_x) == fx(_y) and fx(_x + b"_cl0n\xff") == fx(_y + b"_cl0n\xff")
 for (_x, _y) in PAIRS_SLICE:
     assert _x != _y and len(_x) == len(_y) == 16 and fx(_x, H_SLICE16) == fx(_y, H_SLICE16)
-ALL_PAIRS = PAIRS_STR + PAIRS_SLICE
+# One pair for std's DefaultHasher::new() (SipHash-1-3 with the zero key) over `write(bytes)`: NOT constructible (found by the
+# author of seeded change C17-10 with 9.5e9 hash evaluations); kept as a regression input, verified below.
+def _rotl(x, b): return ((x << b) | (x >> (64 - b))) & M64
+def siphash13(data, k0=0, k1=0):
+    v = [k0 ^ 0x736f6d6570736575, k1 ^ 0x646f72616e646f6d, k0 ^ 0x6c7967656e657261, k1 ^ 0x7465646279746573]
+    def rnd():
+        v[0] = (v[0] + v[1]) & M64; v[1] = _rotl(v[1], 13); v[1] ^= v[0]; v[0] = _rotl(v[0], 32)
+        v[2] = (v[2] + v[3]) & M64; v[3] = _rotl(v[3], 16); v[3] ^= v[2]
+        v[0] = (v[0] + v[3]) & M64; v[3] = _rotl(v[3], 21); v[3] ^= v[0]
+        v[2] = (v[2] + v[1]) & M64; v[1] = _rotl(v[1], 17); v[1] ^= v[2]; v[2] = _rotl(v[2], 32)
+    n, i = len(data), 0
+    while n - i >= 8:
+        m = int.from_bytes(data[i:i + 8], "little"); v[3] ^= m; rnd(); v[0] ^= m; i += 8
+    b = ((n & 0xff) << 56) | int.from_bytes(data[i:], "little")
+    v[3] ^= b; rnd(); v[0] ^= b
+    v[2] ^= 0xff; rnd(); rnd(); rnd()
+    return (v[0] ^ v[1] ^ v[2] ^ v[3]) & M64
+PAIRS_SIP13 = [(b"clip_f83fe6259b80e7ba", b"clip_c77482909676e285")]
+for _x, _y in PAIRS_SIP13:
+    assert _x != _y and siphash13(_x) == siphash13(_y)
+ALL_PAIRS = PAIRS_STR + PAIRS_SLICE + PAIRS_SIP13
 
 if __name__ == "__main__":
     rng = random.Random(7)
